@@ -5,7 +5,7 @@
 From Coq Require Import Arith List Bool PeanoNat Permutation ZArith.
 From ScV Require Import C05.PsortModel C05.PsortPerm C05.PsortOwner C05.PsortWait C05.PsortDist.
 From Coq Require Import Sorted.
-From ScV Require Import C05.PsortZeroOne.
+From ScV Require Import C05.PsortZeroOne C05.PsortBitonic C05.PsortSorted.
 Import ListNotations.
 
 (* (a) permutation and counts: for every count vector (zeros included), every element type, every comparison
@@ -152,3 +152,139 @@ Example C05_ex_sort_contract :
 Proof.
   split; [exact sortb_perm|split; intros l; apply StronglySorted_Sorted; [apply sortb_sorted_asc|apply sortb_sorted_desc]].
 Qed.
+
+(* the 0-1 principle in the form that is used for the merge: direction as a parameter (`dirle le d a b` is `le a b`
+   for d = true and `le b a` for d = false), and only the monotone images of the given list have to be sorted *)
+Theorem C05_zero_one_principle_dir : forall (A : Type) (le : A -> A -> bool),
+  (forall a b, le a b = true \/ le b a = true) ->
+  (forall a b c, le a b = true -> le b c = true -> le a c = true) ->
+  forall sort : bool -> list A -> list A,
+  (forall d l, Permutation (sort d l) l) ->
+  (forall l, Sorted (fun a b => le a b = true) (sort true l)) ->
+  (forall l, Sorted (fun a b => le b a = true) (sort false l)) ->
+  forall d ops l,
+  (forall f : A -> bool, (forall a b, le a b = true -> f a = true -> f b = true) ->
+     StronglySorted (fun a b => dirle leb01 d a b = true) (run bool gtb sortb ops (map f l))) ->
+  StronglySorted (fun a b => dirle le d a b = true) (run A (gt_of A le) sort ops l).
+Proof. exact zero_one_principle_dir. Qed.
+Print Assumptions C05_zero_one_principle_dir.
+
+(* the half-cleaner (first loop level of sc_merge_bitonic for n = 2m) on a cyclically bitonic 0-1 sequence g of length
+   2m (positions [a, b) carry negb c, the others c): one half becomes constant, the other one is bitonic again, and the
+   constant half is on the right side for the direction d *)
+Theorem C05_half_cleaner : forall (d c : bool) (a b m : nat) (g : nat -> bool),
+  a <= b <= 2 * m ->
+  (forall i, i < 2 * m -> g i = xorb c ((a <=? i) && (i <? b))) ->
+  let L := fun i => lowv d (g i) (g (i + m)) in
+  let U := fun i => highv d (g i) (g (i + m)) in
+  ((forall i, i < m -> L i = negb d) /\
+   exists c' a' b', forall i, i < m -> U i = xorb c' ((a' <=? i) && (i <? b'))) \/
+  ((exists c' a' b', forall i, i < m -> L i = xorb c' ((a' <=? i) && (i <? b'))) /\
+   forall i, i < m -> U i = d).
+Proof. exact hc_main. Qed.
+Print Assumptions C05_half_cleaner.
+
+(* (3) the power-of-two merge (fuel and n as sc_psort_bitonic passes them) sorts every cyclically bitonic 0-1 list *)
+Theorem C05_merge_pow2_sorts_bitonic : forall d k (s : list bool), length s = 2 ^ k ->
+  (exists c a b, forall i, i < length s -> nth i s false = xorb c ((a <=? i) && (i <? b))) ->
+  StronglySorted (fun x y => dirle leb01 d x y = true) (run bool gtb sortb (merge_ops (2 ^ k) 0 (2 ^ k) d) s).
+Proof. exact merge_pow2_sorted. Qed.
+Print Assumptions C05_merge_pow2_sorts_bitonic.
+
+(* (2) the merge for ARBITRARY n sorts every 0-1 list of the form d..d (negb d)..(negb d) d..d, i.e. (d = true)
+   descending-then-ascending, wherever the two changes are *)
+Theorem C05_merge_any_n_sorts_01 : forall d (s : list bool) a b,
+  (forall i, i < length s -> nth i s false = xorb d ((a <=? i) && (i <? b))) ->
+  StronglySorted (fun x y => dirle leb01 d x y = true)
+                 (run bool gtb sortb (merge_ops (length s) 0 (length s) d) s).
+Proof. exact merge_any_sorted. Qed.
+Print Assumptions C05_merge_any_n_sorts_01.
+
+(* ... and over arbitrary elements: sc_merge_bitonic on n elements, n arbitrary, sorts in direction d every list that
+   consists of a part sorted against d followed by a part sorted in direction d (of any two lengths) *)
+Theorem C05_merge_sorts : forall (A : Type) (le : A -> A -> bool),
+  (forall a b, le a b = true \/ le b a = true) ->
+  (forall a b c, le a b = true -> le b c = true -> le a c = true) ->
+  forall sort : bool -> list A -> list A,
+  (forall d l, Permutation (sort d l) l) ->
+  (forall l, Sorted (fun a b => le a b = true) (sort true l)) ->
+  (forall l, Sorted (fun a b => le b a = true) (sort false l)) ->
+  forall d (l1 l2 : list A),
+  StronglySorted (fun a b => dirle le (negb d) a b = true) l1 ->
+  StronglySorted (fun a b => dirle le d a b = true) l2 ->
+  let n := length (l1 ++ l2) in
+  StronglySorted (fun a b => dirle le d a b = true) (run A (gt_of A le) sort (merge_ops n 0 n d) (l1 ++ l2)).
+Proof. exact merge_sorts. Qed.
+Print Assumptions C05_merge_sorts.
+
+(* the network of sc_psort sorts every 0-1 list, for every count vector *)
+Theorem C05_network_sorts_01 : forall counts (bl : list bool), length bl = fold_right Nat.add 0 counts ->
+  StronglySorted (fun x y => leb01 x y = true) (run bool gtb sortb (psort_ops counts) bl).
+Proof. exact psort_ops_sorted_bool. Qed.
+Print Assumptions C05_network_sorts_01.
+
+(* THE SORTEDNESS THEOREM: for every count vector (zeros included), every element type, every total preorder and every
+   local sort with the contract of qsort, the concatenation of the local arrays after sc_psort (sequential reference
+   `psort` = the comparator network run in program order) is sorted *)
+Theorem C05_sorted : forall (A : Type) (le : A -> A -> bool),
+  (forall a b, le a b = true \/ le b a = true) ->
+  (forall a b c, le a b = true -> le b c = true -> le a c = true) ->
+  forall sort : bool -> list A -> list A,
+  (forall d l, Permutation (sort d l) l) ->
+  (forall l, Sorted (fun a b => le a b = true) (sort true l)) ->
+  (forall l, Sorted (fun a b => le b a = true) (sort false l)) ->
+  forall counts xs, map (@length A) xs = counts ->
+  StronglySorted (fun a b => le a b = true) (concat (psort A (gt_of A le) sort counts xs)).
+Proof. exact psort_sorted. Qed.
+Print Assumptions C05_sorted.
+
+(* adjacent-pairs forms of the same statement *)
+Theorem C05_sorted_adjacent : forall (A : Type) (le : A -> A -> bool),
+  (forall a b, le a b = true \/ le b a = true) ->
+  (forall a b c, le a b = true -> le b c = true -> le a c = true) ->
+  forall sort : bool -> list A -> list A,
+  (forall d l, Permutation (sort d l) l) ->
+  (forall l, Sorted (fun a b => le a b = true) (sort true l)) ->
+  (forall l, Sorted (fun a b => le b a = true) (sort false l)) ->
+  forall counts xs, map (@length A) xs = counts ->
+  Sorted (fun a b => le a b = true) (concat (psort A (gt_of A le) sort counts xs)) /\
+  forall i a b, nth_error (concat (psort A (gt_of A le) sort counts xs)) i = Some a ->
+                nth_error (concat (psort A (gt_of A le) sort counts xs)) (S i) = Some b -> le a b = true.
+Proof. exact psort_sorted_adjacent. Qed.
+Print Assumptions C05_sorted_adjacent.
+
+(* sorted + permutation + counts in one statement: the text of the property for the sequential reference *)
+Theorem C05_sorted_permutation_counts : forall (A : Type) (le : A -> A -> bool),
+  (forall a b, le a b = true \/ le b a = true) ->
+  (forall a b c, le a b = true -> le b c = true -> le a c = true) ->
+  forall sort : bool -> list A -> list A,
+  (forall d l, Permutation (sort d l) l) ->
+  (forall l, Sorted (fun a b => le a b = true) (sort true l)) ->
+  (forall l, Sorted (fun a b => le b a = true) (sort false l)) ->
+  forall counts xs, map (@length A) xs = counts ->
+  StronglySorted (fun a b => le a b = true) (concat (psort A (gt_of A le) sort counts xs)) /\
+  Permutation (concat (psort A (gt_of A le) sort counts xs)) (concat xs) /\
+  map (@length A) (psort A (gt_of A le) sort counts xs) = counts.
+Proof. exact psort_correct. Qed.
+Print Assumptions C05_sorted_permutation_counts.
+
+(* the same with the parameter of the model, gt a b = (compar (a, b) > 0): never a > b and b > a, and "not greater" is
+   transitive (compar is a total preorder); the output has no pair i < j with out[i] > out[j] *)
+Theorem C05_sorted_gt : forall (A : Type) (gt : A -> A -> bool),
+  (forall a b, gt a b = false \/ gt b a = false) ->
+  (forall a b c, gt a b = false -> gt b c = false -> gt a c = false) ->
+  forall sort : bool -> list A -> list A,
+  (forall d l, Permutation (sort d l) l) ->
+  (forall l, Sorted (fun a b => gt a b = false) (sort true l)) ->
+  (forall l, Sorted (fun a b => gt b a = false) (sort false l)) ->
+  forall counts xs, map (@length A) xs = counts ->
+  StronglySorted (fun a b => gt a b = false) (concat (psort A gt sort counts xs)).
+Proof. exact psort_sorted_gt. Qed.
+Print Assumptions C05_sorted_gt.
+
+(* the instance that the check compares with the real sc_psort on every run (integer keys, Z.gtb, insertion sort):
+   all hypotheses above are satisfiable, and `psort_seq` returns a sorted list *)
+Theorem C05_psort_seq_sorted : forall counts (g : list Z), length g = fold_right Nat.add 0 counts ->
+  StronglySorted Z.le (psort_seq counts g).
+Proof. exact psort_seq_sorted. Qed.
+Print Assumptions C05_psort_seq_sorted.
